@@ -23,6 +23,7 @@ import ProfiVerif.Lemmas.DpLiveRuns
 import ProfiVerif.Lemmas.DpLiveMaster
 import ProfiVerif.Lemmas.DpLiveMasterRun
 import ProfiVerif.Lemmas.DpLiveNRun
+import ProfiVerif.Lemmas.DpLiveMismatch
 
 namespace PV.C07
 open PV PV.Dp PV.Live
@@ -419,6 +420,42 @@ theorem multi_live_from_everywhere {J : JointN} {ps : List Peripheral} {k : Nat}
   rw [← h2.1] at h3
   exact h3
 
+/-! ## Outside the scope: a configuration that does not match
+
+`CfgMismatch j`: address, ident number and parameter length agree, the configuration bytes of the
+master's `PeripheralOptions::config` differ from the slave's.  `Probing j`: the peripheral is offline
+with retry count 0 and the slave will take the probe for a new request (true at start-up and after every
+round). -/
+
+/-- **mismatch_cycle.**  With other configuration bytes than the slave accepts, the fault-free run is an
+endless repetition of one round of exactly four visits — probe (the diagnostics reply is accepted:
+`Online`), `Set_Prm` (accepted, SC), `Chk_Cfg` (acknowledged by SC, but the slave sets `Cfg_Fault` and
+returns to `Wait_Prm`), diagnostics (the master sees `Cfg_Fault`: `ConfigError`, peripheral offline again,
+retry count 0) — so after `4 r` visits the events are `r` times `Online, ConfigError`, the master is
+probing again (no livelock inside a round, no panic, no retry exhaustion, no `Offline` event), and the
+peripheral is never in data exchange. -/
+theorem mismatch_cycle {j : PJ} (hm : CfgMismatch j) (hp : Probing j) :
+    (∀ r, ∃ j', j.quiet (4 * r) = some (j', (List.replicate r [PEvent.online, PEvent.configError]).flatten) ∧
+        CfgMismatch j' ∧ Probing j') ∧
+    (∀ n, ∃ j' evs, j.quiet n = some (j', evs) ∧ j'.p.isRunning = false) := by
+  refine ⟨fun r => cfgm_rounds r hm hp, fun n => ?_⟩
+  obtain ⟨j', evs, h1, _, _, h4⟩ := cfgm_never_running n hm (Or.inl hp)
+  exact ⟨j', evs, h1, h4⟩
+
+/-- The four visits of a round, one by one (states of the master: `Offline → WaitForParam → WaitForConfig →
+ValidateConfig → Offline`; of the slave: any `→` same `→ Wait_Cfg / Data_Exch → Wait_Prm + Cfg_Fault →` same). -/
+theorem mismatch_round {j : PJ} (hm : CfgMismatch j) (hp : Probing j) :
+    ∃ j1 j2 j3 j4,
+      j.visit false .ok = some (j1, some .online) ∧ j1.p.state = .waitForParam ∧
+      j1.visit false .ok = some (j2, none) ∧ j2.p.state = .waitForConfig ∧ j2.s.state ≠ .waitPrm ∧
+      j2.visit false .ok = some (j3, none) ∧ j3.p.state = .validateConfig ∧ j3.s.state = .waitPrm ∧ j3.s.cfgFault = true ∧
+      j3.visit false .ok = some (j4, some .configError) ∧ CfgMismatch j4 ∧ Probing j4 := by
+  obtain ⟨j1, v1, m1, _, a1, b1, c1⟩ := cfgm_probe hm hp
+  obtain ⟨j2, v2, m2, _, a2, b2, c2, d2⟩ := cfgm_setprm m1 a1 b1 c1
+  obtain ⟨j3, v3, m3, _, a3, b3, c3, d3, e3⟩ := cfgm_chkcfg m2 a2 b2 c2 d2
+  obtain ⟨j4, v4, m4, _, p4⟩ := cfgm_validate m3 a3 b3 c3 d3 e3
+  exact ⟨j1, j2, j3, j4, v1, a1, v2, a2, d2, v3, a3, d3, e3, v4, m4, p4⟩
+
 /-! ## Non-vacuity -/
 
 /-- A fresh master with peripheral #7 (`Ex.p7`) and the matching slave after power-on. -/
@@ -517,5 +554,17 @@ theorem Ex.ngood2 : NGood Ex.J2 [Dp.Ex.p7, Ex.p9] 1 where
 example : ((Ex.J2.quietTurns ((List.range 20).map fun (i : Nat) => ((1000 + 3000 * i : Nat) : Int))).map fun r =>
     ((List.range 2).map fun l => (r.1.m.peripheral? l).map Peripheral.isRunning)) = some [some true, some true] := by
   decide +kernel
+
+/-- A slave that expects other configuration bytes than the master sends: hypotheses satisfiable, and the
+first two rounds evaluated. -/
+def Ex.jBad : PJ :=
+  { fp := Dp.Ex.fp, op := .operate, p := Dp.Ex.p7, s := Slave.init { Witness.cfg with config := [0x11, 0x22] } [0xc0] }
+
+example : CfgMismatch Ex.jBad ∧ Probing Ex.jBad :=
+  ⟨⟨Dp.Ex.fp_ok, by decide, Ex.good.pinv, rfl, ⟨[1, 2, 3], rfl, rfl⟩, rfl, by decide,
+    ⟨[0x11, 0x21], rfl, by decide⟩, rfl⟩, ⟨rfl, rfl, rfl⟩⟩
+
+example : (Ex.jBad.quiet 8).map (fun r => (r.1.p.isRunning, r.2)) =
+    some (false, [.online, .configError, .online, .configError]) := by decide +kernel
 
 end PV.C07
